@@ -1,4 +1,5 @@
 (* Proofs/HalfFacts.v — facts about the float paths of the encoder/decoder model and about Model/Half.v (C12). *)
+From MC Require Export Sweep16.
 From MC Require Import Bytes BytesFacts Monad Encoder Decoder Half Float16.
 From Coq Require Import Lia.
 Local Open Scope N_scope.
@@ -211,31 +212,7 @@ Proof.
   apply f32_to_f64_fields; assumption.
 Qed.
 
-(* ---------------------------------------------------------------------------------------------
-   All 65536 half patterns, as a list of N built without any large nat.
-   --------------------------------------------------------------------------------------------- *)
-Fixpoint nseq (n : nat) (from : N) : list N :=
-  match n with O => [] | S k => from :: nseq k (from + 1) end.
-
-Lemma nseq_in n : forall from x, from <= x < from + N.of_nat n -> In x (nseq n from).
-Proof.
-  induction n as [|n IH]; intros from x H; [lia|].
-  cbn [nseq]. destruct (N.eq_dec x from) as [->|Q]; [left; reflexivity|right].
-  apply IH. lia.
-Qed.
-
-Definition l256 : list N := nseq 256 0.
-Definition all16 : list N := flat_map (fun hi => map (fun lo => hi * 256 + lo) l256) l256.
-
-Lemma all16_in h : h < 65536 -> In h all16.
-Proof.
-  intro H. unfold all16. apply in_flat_map. exists (h / 256). split.
-  - apply nseq_in. lia.
-  - apply in_map_iff. exists (h mod 256). split; [lia|]. apply nseq_in. lia.
-Qed.
-
-Lemma forall16 (P : N -> bool) : forallb P all16 = true -> forall h, h < 65536 -> P h = true.
-Proof. intros H h Hh. rewrite forallb_forall in H. apply H, all16_in, Hh. Qed.
+(* All 65536 half patterns: Proofs/Sweep16.v (nseq, l256, all16, forall16). *)
 
 (* every half pattern is widened by f16_to_f32 to the single-precision pattern denoting the same datum *)
 Lemma half_exact : forall h, h < 65536 ->
